@@ -161,22 +161,45 @@ Definition pc_exec (cfg : config) (t0 : Z) (pre post : dump) (e : event) (o : li
   end.
 
 (* the monitor state after the event, and the list of components in the order [p_step] reports them *)
-Definition pm_final (cfg : config) (post : dump) (e : event) (o : list obs) (m : mon) : mon :=
-  fst (retry_fold cfg post e o m (pm3 post e o m)).
+(* an accepted completion report ends the assignment the retry counter was about *)
+Definition pm_clear (pre : dump) (e : event) (m : mon) : mon :=
+  match e with
+  | EStartSync _ a _ =>
+    match y_state a, find_dworker pre (w_sk (y_worker a)) (wid (y_worker a)) with
+    | WCompleted d _, Some k =>
+      match dw_task k with
+      | Some ops0 =>
+        if existsb (fun o => existsb (Nat.eqb (do_name o)) ops0 && (do_digest o =? d)%N) (d_ops pre)
+        then m <| m_reissue := adel wref_eqb (y_worker a) (m_reissue m) |> else m
+      | None => m
+      end
+    | _, _ => m
+    end
+  | _ => m
+  end.
+Lemma pm_clear_eq : forall pre e m, pm_clear pre e m = m <| m_reissue := m_reissue (pm_clear pre e m) |>.
+Proof.
+  intros pre e m. unfold pm_clear. destruct e; try (destruct m; reflexivity).
+  destruct (y_state a); try (destruct m; reflexivity). destruct (find_dworker _ _ _) as [k|]; [|destruct m; reflexivity].
+  destruct (dw_task k); [|destruct m; reflexivity]. destruct (existsb _ _); destruct m; reflexivity.
+Qed.
+Definition pm_final (cfg : config) (pre post : dump) (e : event) (o : list obs) (m : mon) : mon :=
+  fst (retry_fold cfg post e o m (pm_clear pre e (pm3 post e o m))).
 Definition p_components (cfg : config) (t0 : Z) (m : mon) (pre : dump) (e : event) (o : list obs) (post : dump) : list string :=
   let m3 := pm3 post e o m in
-  let mf := pm_final cfg post e o m in
+  let mf := pm_final cfg pre post e o m in
   [pc_panic o; c01_dump post; pc_sync post e o m3; pc_stream post e o m; pc_lost cfg pre post m; pc_cancel pre post e m;
    c03_dump post; c03_waited post; c04_dump post; pc_exec cfg t0 pre post e o; c05_assign pre post;
-   c06_dump mf post; c06_final mf post; pc_arm cfg pre post e o m m3; snd (retry_fold cfg post e o m m3); pc_early cfg pre post m;
+   c06_dump mf post; c06_final mf post; pc_arm cfg pre post e o m m3; snd (retry_fold cfg post e o m (pm_clear pre e m3)); pc_early cfg pre post m;
    pc_learn e o m; c07_background post; c07_learners_match mf post].
 
 Lemma p_step_components : forall cfg t0 m pre e o post,
-  p_step cfg t0 m pre e o post = (pm_final cfg post e o m, first_nonempty (p_components cfg t0 m pre e o post)).
+  p_step cfg t0 m pre e o post = (pm_final cfg pre post e o m, first_nonempty (p_components cfg t0 m pre e o post)).
 Proof.
   intros cfg t0 m pre e o post. unfold p_step, p_components, pm_final, pc_learn, pc_stream, pm3, pm2, retry_fold. cbv zeta.
   fold (pm1 e o m).
   destruct (fold_left c07_ghost o (m_learners (pm1 e o m), ""%string)) as [ls el] eqn:E1. cbn [fst snd].
   destruct (fold_left (c02_obs post) o (pm1 e o m <| m_learners := ls |>, ""%string)) as [m3 es] eqn:E2. cbn [fst snd].
-  match goal with |- context [fold_left ?g o (m3, ?z)] => destruct (fold_left g o (m3, z)) as [m4 er] eqn:E3 end. cbn [fst snd]. reflexivity.
+  fold (pm_clear pre e m3).
+  match goal with |- context [fold_left ?g o (pm_clear pre e m3, ?z)] => destruct (fold_left g o (pm_clear pre e m3, z)) as [m4 er] eqn:E3 end. cbn [fst snd]. reflexivity.
 Qed.
